@@ -24,7 +24,7 @@ Proof.
     destruct (existsb _ _); [intros [= <-]; reflexivity|discriminate].
   - unfold remove_node. destruct (get_node h n); [|intros [= <-]; reflexivity].
     destruct (existsb _ _); [intros [= <-]; reflexivity|discriminate].
-  - unfold clone. destruct (clone_nodes _ _ _ _) as [[[a b] c]|]; [discriminate|intros [= <-]; reflexivity].
+  - unfold clone. destruct (clone_nodes _ _ _ _ _ _) as [[[a b] c]|]; [discriminate|intros [= <-]; reflexivity].
   - unfold roundtrip. destruct (rt_domain h); simpl; [|intros [= <-]; reflexivity].
     destruct (ser_ok h); simpl; [|intros [= <-]; reflexivity].
     destruct (rt_nodes _ _ _ _) as [a [[b c] d]]. discriminate.
@@ -151,7 +151,7 @@ Definition ex_ops : list op :=
    OStage 1 ex_c 0;
    ORename ex_x [119; 119];
    OReplaceInput 0 0 None;
-   OClone;
+   OClone true false;
    ORoundTrip;
    ORemCfgName [99] true].
 
@@ -283,7 +283,7 @@ Qed.
 Example nest_roundtrip :
   let h := run nest_h0 nest_ops in
   roundtrip h = (h, Ok tt) /\
-  (let h2 := fst (clone h) in snd (clone h) = Ok tt /\ roundtrip h2 = (h2, Ok tt) /\ check h2 = []).
+  (let h2 := fst (clone h true false) in snd (clone h true false) = Ok tt /\ roundtrip h2 = (h2, Ok tt) /\ check h2 = []).
 Proof. vm_compute. repeat split. Qed.
 
 (* below IR 11 the nested model loses every annotation, also inside the bodies *)
@@ -296,3 +296,29 @@ Example nest_old_ir :
   /\ map (fun p => length (n_dc (snd p))) (s_nodes (fst (roundtrip h))) = [0%nat; 0%nat; 0%nat; 0%nat; 0%nat]
   /\ s_cfgs (fst (roundtrip h)) = [] /\ check (fst (roundtrip h)) = [].
 Proof. vm_compute. repeat split. Qed.
+
+(* identity of configurations after clone: the clone registers the very same configuration objects, whatever the
+   parameters, so the references of the cloned nodes stay registered *)
+Lemma clone_same_cfgs h deep allow : s_cfgs (fst (clone h deep allow)) = s_cfgs h.
+Proof. unfold clone. destruct (clone_nodes _ _ _ _ _ _) as [[[a b] c]|]; reflexivity. Qed.
+
+Lemma clone_deep_irrelevant h allow : clone h true allow = clone h false allow.
+Proof. reflexivity. Qed.
+
+(* unsorted main graph: node 0 reads the output of the later node 1.  clone() raises; with
+   allow_outer_scope_values the cloned node 0 keeps reading the ORIGINAL's value (C13's finding), its annotation on
+   that value follows — still an input of the node, DevInv and the check are fine *)
+Definition uns_a := mkV 0 (Some 1).
+Definition uns_b := mkV 1 (Some 1).
+Definition uns_c := mkV 2 None.
+Definition uns_h0 : state :=
+  mkSt [(0, [97]); (1, [98]); (2, [99])]
+       [(0, mkN [Some uns_b] [uns_c] []); (1, mkN [Some uns_a] [uns_b] [])]
+       [uns_a] [] 3 0 11 (mkSc 1 [] []).
+Example uns_clone :
+  let h := run uns_h0 [OAddCfg [120] 2; OShard 0 uns_b (mkC 0 [120] 2) 0 2 [] None] in
+  snd (clone h false false) = Raise RuntimeError /\ snd (clone h true true) = Ok tt
+  /\ map (fun p => n_in (snd p)) (s_nodes (fst (clone h true true))) = [[Some uns_b]; [Some (mkV 3 (Some 1))]]
+  /\ sharding_of (snd (nth 0 (s_nodes (fst (clone h true true))) (0, mkN [] [] []))) uns_b <> []
+  /\ check (fst (clone h true true)) = [].
+Proof. vm_compute. repeat split; discriminate. Qed.
